@@ -26,28 +26,38 @@ CLAIMED = {
         "technique": "Coq proof (invariant over a rule-list parser model) + differential correspondence of the extracted model",
     },
     "C12": {
-        "text": ("17 theorems (Coq, no axioms) for all values, terms and oracle instances: each of the nine operators "
+        "text": ("22 theorems (Coq, no axioms) for all values, terms and oracle instances: each of the nine operators "
                  "of the Searches.search_matches model equals the documented typed rule (numeric equality for same-kind "
                  "numbers, case-insensitive boolean spellings, numeric ordering and false against non-numeric terms, "
                  "lexicographic text ordering, prefix/suffix/substring on the value's text, unanchored regex), never "
                  "raises for a well-formed term, and the candidate loops of _get_nodes_by_search are pointwise and "
                  "complementary under inversion (the multi-descendant hash case is a guarded _partial theorem with a "
-                 "_refuted witness = known finding F12a).  Tie: the complete operator x haystack x needle grid "
-                 "(real ruamel-loaded scalars included) plus the loops through Processor.get_nodes on every run."),
+                 "_refuted witness = known finding F12a).  The inversion clause is also stated over DOCUMENTS: the "
+                 "candidate list is a Coq function of the document (SearchCands.v), the evaluator model's by_search "
+                 "is proved to refine the loops on it, and C12_inversion_doc says that the inverted search yields "
+                 "exactly the candidates the plain one does not, in candidate order.  Tie: the complete operator x "
+                 "haystack x needle grid (real ruamel-loaded scalars included); the loops through "
+                 "Processor.get_nodes; the extracted candidate function against the harness's candidates and, "
+                 "composed with the loops, against the real yields, on every run."),
         "design_ref": "DESIGN.md section 4 (C12), docs/C12.md",
         "note": NOTE_COMMON,
         "technique": "Coq proof (case analysis over typed-value kinds; loop lemmas) + exhaustive-grid differential correspondence",
     },
     "C13": {
-        "text": ("35 theorems (Coq, no axioms) over a model of all of keywordsearches.py: max/min (plain and inverted) "
-                 "select exactly the extremal members / exactly the others for lists of ints, of same-kind numbers and "
-                 "of text (lexicographic), for any Array-of-Hashes and any hash-of-hashes by attribute (present, "
-                 "absent, repeated, null), by a loop invariant generic in the order; unique = the members whose "
-                 "value occurs once (inverted: more than once), distinct = the first member of each group in order "
-                 "of first occurrence, by a grouping invariant under Python equality; has_child, parent(n) incl. "
-                 "refusal above the root, name(), and the refusal branches.  Mixed int/float/numeric-text "
-                 "collections are outside the theorems (tied only).  Tie: every keyword x inversion x parameter "
-                 "form through KeywordSearches.search_matches and end to end through Processor.get_nodes."),
+        "text": ("48 theorems (Coq, no axioms) over a model of all of keywordsearches.py: max/min (plain and inverted) "
+                 "select exactly the extremal members / exactly the others for lists of ints, of floats, of words "
+                 "(lexicographic) -- the hypothesis 'is its own typed reading' is discharged for ints and floats and, "
+                 "for text, reduced to 'ast.literal_eval rejects it' --, for any Array-of-Hashes and any "
+                 "hash-of-hashes by attribute (present, absent, repeated, null), by a loop invariant generic in the "
+                 "order; unique = the members whose value occurs once (inverted: more than once), distinct = the "
+                 "first member of each group in order of first occurrence, by a grouping invariant under Python "
+                 "equality; has_child, parent(n) incl. refusal above the root, name(), and the refusal branches.  "
+                 "Lists mixing ints with floats are outside the property's quantifier ('same-kind'); what the code "
+                 "selects on them is pinned by C13_max_min_mixed_selects (the first extremal member and the later "
+                 "members of the same numeric type with an equal value), the property's statement holds under the "
+                 "guard no_cross_equal (_partial) and fails without it ([5, 5.0]: _refuted).  Tie: every keyword x "
+                 "inversion x parameter form through KeywordSearches.search_matches and end to end through "
+                 "Processor.get_nodes."),
         "design_ref": "DESIGN.md section 4 (C13), docs/C13.md",
         "note": NOTE_COMMON,
         "technique": "Coq proof (loop invariants over a model of keywordsearches.py) + differential correspondence",
